@@ -2,8 +2,8 @@
 
 Domain   same generated (parser, accepted configuration) pairs as C01 (object and argv channel).
 Oracle   for each accepted cfg: validate(cfg) does not raise; typed_eq(parse_object(copy of cfg), cfg);
-         dump(parse_string(dump(cfg))) == dump(cfg) byte for byte per format (evaluated where the re-parse is equal to cfg: an
-         unequal re-parse is C01's subject and is counted as excluded here, so that one defect is not reported under two names).
+         dump(parse_string(dump(cfg))) == dump(cfg) byte for byte per format; a dump that raises or does not re-parse breaks the
+         clause as well (a re-parse that differs from cfg while the second dump is identical is C01's subject and only counted).
 """
 import copy
 
@@ -19,14 +19,27 @@ TECHNIQUE = "property-based idempotence testing (validate / parse_object / dump-
 LEVEL_TEXT = ("Thousands of generated (parser, accepted configuration) pairs per run, from the object and the command line channel; "
               "each result must validate, re-parse as an object to a typed-equal configuration and dump to byte-identical text after a "
               "dump/parse cycle. Exploration bounded by the type grammar.")
-LEVEL_NOTE = ("Trusted: typed_eq in vf/gen/types.py. Re-parses of a dump that are not equal to the configuration belong to C01 and are "
-              "excluded here (counted), so the third clause is judged on equal re-parses only.")
+LEVEL_NOTE = ("Trusted: typed_eq in vf/gen/types.py. Root causes F2, F3 and F23 (recorded for C01) also break the dump cycle and are "
+              "recognised here by the same narrow input-anchored rules, under C10 signatures of their own.")
 RULE = ("case = (parser recipe, given values, channel). non-trivial = the configuration contains a converted leaf (enum member, tuple/set, "
         "registered or restricted type, subclass spec with filled defaults, dataclass) and at least one given value. distinct = hash of the case")
 ASSUMPTIONS = [
     "the config bookkeeping key (cfg) and meta keys are removed before comparing",
     "scalar subclasses created by restricted types compare equal to their base value (type identity of PositiveInt vs int is not part of the statement)",
 ]
+
+
+KNOWN_SIG = {"F2": "C10/F2/dump-of-str-with-char-that-PyYAML-does-not-read-back-does-not-cycle",
+             "F3": "C10/F3/non-finite-float-json-dump-does-not-re-parse",
+             "F23": "C10/F23/yaml-null-lookalike-str-becomes-None-when-parsed-again"}
+
+
+def _known(case, fmt, a, b):
+    """the recorded root causes that also break the dump cycle, recognised by the same narrow, input-anchored rules as in C01"""
+    from .c01 import classify
+
+    s = classify(case, fmt, "dump", "", a, b)
+    return KNOWN_SIG.get(s.split("/")[1]) if s else None
 
 
 def run_case(ctx, case):
@@ -65,12 +78,13 @@ def run_case(ctx, case):
         for fmt in _rt.FORMATS:
             try:
                 d1 = p.dump(copy.deepcopy(cfg), format=fmt, skip_none=False)
-                back = p.parse_string(d1)
-            except Exception:  # noqa   (C01's subject)
-                ctx.exclude("dump or re-parse raises (C01)")
+            except Exception as ex:  # noqa
+                ctx.finding(_known(case, fmt, base, None) or f"C10/dump-raises/{fmt}/{type(ex).__name__}@{innermost_pkg_frame(ex)}", {"error": fmt_exc(ex), "cfg": repr(base)[:300]})
                 continue
-            if G.diff(_rt.clean(back), base, limit=1):
-                ctx.exclude("re-parse differs from cfg (C01)")
+            try:
+                back = p.parse_string(d1)
+            except Exception as ex:  # noqa
+                ctx.finding(_known(case, fmt, base, None) or f"C10/dump-does-not-re-parse/{fmt}/{type(ex).__name__}", {"error": fmt_exc(ex), "first_dump": short(d1, 300)})
                 continue
             try:
                 d2 = p.dump(copy.deepcopy(back), format=fmt, skip_none=False)
@@ -78,7 +92,17 @@ def run_case(ctx, case):
                 ctx.finding(f"C10/second-dump-raises/{fmt}/{type(ex).__name__}", {"error": fmt_exc(ex), "first_dump": short(d1, 300)})
                 continue
             if d1 != d2:
-                ctx.finding(f"C10/dump-not-stable/{fmt}", {"first": short(d1, 400), "second": short(d2, 400)})
+                # the recorded root causes (F2, F23: the first re-parse reads a string back as something else) are recognised by
+                # what changed between cfg and its re-parse; anything else is a new instability
+                diffs = G.diff(_rt.clean(back), base, limit=6)
+                sigs = {_known(case, fmt, want, got) for _path, got, want in diffs}
+                if diffs and None not in sigs:
+                    for sg in sorted(sigs):
+                        ctx.finding(sg, {"format": fmt, "first": short(d1, 300), "second": short(d2, 300)})
+                else:
+                    ctx.finding(f"C10/dump-not-stable/{fmt}", {"first": short(d1, 400), "second": short(d2, 400)})
+            elif G.diff(_rt.clean(back), base, limit=1):
+                ctx.cls("dump-cycle-stable-although-re-parse-differs (C01's subject)")
             ctx.cls("dump-cycle-compared")
     ctx.sample()
 
